@@ -1,8 +1,8 @@
 // ===== spec/substitute_spec.rs : which expression Function::substitute builds, and its value (C04) (hand-written, independent of /repo) =====
-#[verifier::external_body] pub struct SortedIds { v: Vec<u64> }
-impl View for SortedIds { type V = Seq<u64>; uninterp spec fn view(&self) -> Seq<u64>; }
-impl VClone for SortedIds { #[verifier::external_body] fn vclone(&self) -> (r: Self) ensures r == *self { unimplemented!() } }
-// the term list enumerated by `for (ids, coefficient) in &function` (assumed contract of the term iterators)
+// SortedIds: the extracted newtype over Vec<u64> (sorted_ids.rs); its view is the id list
+impl View for SortedIds { type V = Seq<u64>; open spec fn view(&self) -> Seq<u64> { self.0@ } }
+// the term list enumerated by `for (ids, coefficient) in &function`: NAMED as a function of the message (purity naming, assumed: name_terms); what the list is worth is proved on
+// the real term iterators (fn_titems_ok, spec/iter_spec.rs)
 pub uninterp spec fn fn_terms(f: v1::Function) -> Seq<(SortedIds, F64)>;
 pub open spec fn tsum(t: Seq<(SortedIds, F64)>, n: int, m: Map<u64, F64>) -> real decreases n {
     if n <= 0 { 0real } else { tsum(t, n - 1, m) + mono_val(rv(t[n - 1].1), t[n - 1].0@, t[n - 1].0@.len() as int, m) }
@@ -143,22 +143,31 @@ pub proof fn lemma_acc_steps_ext(t: Seq<(SortedIds, F64)>, a: Seq<Seq<v1::Functi
     ensures acc_steps_ok(t, a, n) == acc_steps_ok(t, b, n)
     decreases n
 { if n > 0 { lemma_acc_steps_ext(t, a, b, n - 1); lemma_sub_acc_ext(t, a, b, n); lemma_sub_acc_ext(t, a, b, n - 1); } }
-// ASSUMED (T5, term iterators): the enumerated terms sum to the polynomial and carry its coefficients
-pub broadcast axiom fn ax_fn_terms(f: v1::Function, m: Map<u64, F64>)
-    ensures #[trigger] tsum(fn_terms(f), fn_terms(f).len() as int, m) == fn_val(f, m);
-pub broadcast axiom fn ax_fn_terms_fin(f: v1::Function)
-    requires fn_fin(f) ensures #[trigger] terms_coef_fin(fn_terms(f));
+// (formerly axioms) the enumerated terms sum to the polynomial and carry its coefficients: consequences of the PROVED contract of the term iterators
+pub proof fn lemma_tsum_kseq(t: Seq<(SortedIds, F64)>, n: int, m: Map<u64, F64>)
+    requires 0 <= n <= t.len()
+    ensures tsum(t, n, m) == kseq_sum(sitems(t), n, pw(m))
+    decreases n
+{ if n > 0 { lemma_tsum_kseq(t, n - 1, m); lemma_mono_unit(rv(t[n - 1].1), t[n - 1].0@, t[n - 1].0@.len() as int, m); } }
+pub proof fn lemma_fn_terms(f: v1::Function, m: Map<u64, F64>)
+    requires fn_coo_ok(f), fn_titems_ok(fn_terms(f), f)
+    ensures tsum(fn_terms(f), fn_terms(f).len() as int, m) == fn_val(f, m)
+{ lemma_fn_titems_sum(fn_terms(f), f, m); lemma_tsum_kseq(fn_terms(f), fn_terms(f).len() as int, m); }
+pub proof fn lemma_fn_terms_fin(f: v1::Function)
+    requires fn_fin(f), fn_coo_ok(f), fn_titems_ok(fn_terms(f), f)
+    ensures terms_coef_fin(fn_terms(f))
+{ assert forall|i: int| 0 <= i < fn_terms(f).len() implies fin((#[trigger] fn_terms(f)[i]).1) by { lemma_fn_titems_from(fn_terms(f), f, i); } }
 pub open spec fn rep_ok(rep: Map<u64, v1::Function>) -> bool { forall|k: u64| #[trigger] rep.contains_key(k) ==> rep[k].function is Some && fn_fin(rep[k]) }
 // THE PROPERTY (function level): the value of the substituted function at m is the value of the original at the state m2 in which every replaced
 // variable holds the value of its replacement at m - minus the explicit accumulated epsilon-drop remainder of the operator calls
 pub proof fn lemma_substitute_value(f: v1::Function, rep: Map<u64, v1::Function>, fss: Seq<Seq<v1::Function>>, m: Map<u64, F64>, m2: Map<u64, F64>)
-    requires fn_fin(f), rep_ok(rep),
+    requires fn_fin(f), rep_ok(rep), fn_coo_ok(f), fn_titems_ok(fn_terms(f), f),
         all_factors_ok(fn_terms(f), fss, rep, fn_terms(f).len() as int), acc_steps_ok(fn_terms(f), fss, fn_terms(f).len() as int),
         forall|i: int| 0 <= i < fn_terms(f).len() ==> composed_state(m2, m, rep, (#[trigger] fn_terms(f)[i]).0@),
     ensures fn_val(sub_acc(fn_terms(f), fss, fn_terms(f).len() as int), m) == fn_val(f, m2) - acc_rem(fn_terms(f), fss, fn_terms(f).len() as int, m)
 {
     let t = fn_terms(f); let n = t.len() as int;
-    ax_fn_terms(f, m2); ax_fn_terms_fin(f);
+    lemma_fn_terms(f, m2); lemma_fn_terms_fin(f);
     assert forall|i: int| 0 <= i < n implies fs_fin(#[trigger] fss[i], fss[i].len() as int) by {
         assert(factors_ok(t[i].0@, fss[i], rep, fss[i].len() as int));
         assert forall|k: int| 0 <= k < fss[i].len() implies fn_fin(#[trigger] fss[i][k]) by { assert(factor_ok(fss[i][k], t[i].0@[k], rep)); }
